@@ -500,3 +500,115 @@ Proof.
 Qed.
 
 End Pass.
+
+(* ================= the two passes together ================= *)
+Lemma sel_num_spec : forall d v w, (-9 <= v <= 9)%Z -> sel_num d v = Some w ->
+  (-9 <= w <= 9)%Z /\ w <> 0%Z /\ (1 * w)%Z = v.
+Proof.
+  intros d v w Hv H. unfold sel_num in H.
+  destruct ((0 <? v)%Z || ((v <? 0)%Z && negb d)) eqn:E; [|discriminate]. inversion H; subst w.
+  apply orb_true_iff in E. destruct E as [E|E].
+  - apply Z.ltb_lt in E. lia.
+  - apply andb_true_iff in E. destruct E as [E _]. apply Z.ltb_lt in E. lia.
+Qed.
+
+Lemma sel_den_spec : forall v w, (-9 <= v <= 9)%Z -> sel_den v = Some w ->
+  (-9 <= w <= 9)%Z /\ w <> 0%Z /\ (-1 * w)%Z = v.
+Proof.
+  intros v w Hv H. unfold sel_den in H. destruct (v <? 0)%Z eqn:E; [|discriminate].
+  inversion H; subst w. apply Z.ltb_lt in E. lia.
+Qed.
+
+Lemma fresh_zero : forall sel vs, fresh sel vs (repeat 0%Z (List.length vs)).
+Proof. induction vs; simpl; auto. Qed.
+
+Lemma merge_length : forall sel vs rs, List.length (merge sel vs rs) = List.length rs.
+Proof.
+  induction vs as [|v vs IH]; intros rs; [reflexivity|]. destruct rs as [|r rs]; [reflexivity|].
+  simpl. rewrite IH. reflexivity.
+Qed.
+
+Lemma merge_num_false : forall vs, merge (sel_num false) vs (repeat 0%Z (List.length vs)) = vs.
+Proof.
+  induction vs as [|v vs IH]; [reflexivity|]. simpl. rewrite IH. f_equal.
+  unfold sel_num. destruct (0 <? v)%Z eqn:E1; destruct (v <? 0)%Z eqn:E2; simpl; try reflexivity.
+  apply Z.ltb_ge in E1. apply Z.ltb_ge in E2. lia.
+Qed.
+
+Lemma merge_two : forall vs,
+  merge sel_den vs (merge (sel_num true) vs (repeat 0%Z (List.length vs))) = vs.
+Proof.
+  induction vs as [|v vs IH]; [reflexivity|]. simpl. rewrite IH. f_equal.
+  unfold sel_den, sel_num. destruct (v <? 0)%Z eqn:E2; [reflexivity|].
+  destruct (0 <? v)%Z eqn:E1; simpl; [reflexivity|].
+  apply Z.ltb_ge in E1. apply Z.ltb_ge in E2. lia.
+Qed.
+
+Lemma fresh_two : forall vs, fresh sel_den vs (merge (sel_num true) vs (repeat 0%Z (List.length vs))).
+Proof.
+  induction vs as [|v vs IH]; simpl; auto. split; [|exact IH].
+  intros H. unfold sel_den in H. unfold sel_num. destruct (v <? 0)%Z eqn:E2; [|congruence].
+  apply Z.ltb_lt in E2. destruct (0 <? v)%Z eqn:E1; [apply Z.ltb_lt in E1; lia|]. reflexivity.
+Qed.
+
+Lemma names_nonempty_items : forall sel vs u w,
+  In (u, w) (pass_items sel si_names vs) -> u <> "".
+Proof.
+  intros sel vs u w H. apply pass_items_in in H. destruct H as (H & _).
+  simpl in H. repeat (destruct H as [<-|H]; [discriminate|]). contradiction.
+Qed.
+
+Lemma sig0_repeat : forall sig : list Z, List.length sig = 9%nat -> sig0 = repeat 0%Z (List.length sig).
+Proof. intros sig H. rewrite H. reflexivity. Qed.
+
+(* SI unit strings with single-digit exponents round-trip through printing and parsing *)
+Theorem parse_print : forall sig d h t,
+  List.length sig = 9%nat -> Forall (fun v => (-9 <= v <= 9)%Z) sig ->
+  h = "" \/ h = "^" -> t = "" \/ t = "." ->
+  str_to_sisig (siunit sig d h t) = Val sig.
+Proof.
+  intros sig d h t Hlen Hb Hh Ht.
+  assert (Hlen' : List.length sig = List.length si_names) by (rewrite Hlen; reflexivity).
+  assert (Hz : List.length (repeat 0%Z (List.length sig)) = List.length si_names)
+    by (rewrite repeat_length; exact Hlen').
+  (* first sweep, whatever follows the numerators *)
+  assert (P1 : forall tail, tail_ok 1 tail si_names ->
+            scan si_names sig0 (render h t (pass_items (sel_num d) si_names sig) tail) 1 =
+            finish_pass tail (merge (sel_num d) sig sig0)).
+  { intros tail Htl. rewrite (sig0_repeat sig Hlen).
+    apply (scan_pass h t Hh Ht (sel_num d) 1 (or_introl eq_refl) (sel_num_spec d));
+      first [exact si_names_ok | apply fresh_zero | assumption]. }
+  unfold str_to_sisig, siunit, siunit_with.
+  set (s1 := join_items h t (pass_items (sel_num d) si_names sig)).
+  set (t2 := if d then join_items h t (pass_items sel_den si_names sig) else "").
+  destruct (String.eqb t2 "") eqn:Et.
+  - (* no divisor part *)
+    apply String.eqb_eq in Et.
+    assert (Es : s1 = render h t (pass_items (sel_num d) si_names sig) "").
+    { unfold s1. rewrite <- join_render. rewrite app_nil_r_s. reflexivity. }
+    rewrite Es. rewrite (P1 "" (or_introl eq_refl)). simpl. f_equal.
+    rewrite (sig0_repeat sig Hlen).
+    destruct d.
+    + assert (Hnil : pass_items sel_den si_names sig = []).
+      { destruct (pass_items sel_den si_names sig) as [|p r] eqn:Ei; [reflexivity|]. exfalso.
+        unfold t2 in Et. revert Et. apply (join_nonempty h t); [|congruence].
+        intros u w Hin. rewrite <- Ei in Hin. eapply names_nonempty_items; eauto. }
+      transitivity (merge sel_den sig (merge (sel_num true) sig (repeat 0%Z (List.length sig)))).
+      * symmetry. apply (merge_none sel_den si_names); auto.
+      * apply merge_two.
+    + apply merge_num_false.
+  - (* numerators / denominators *)
+    destruct d; [|unfold t2 in Et; discriminate].
+    assert (Es : s1 ++ "/" ++ t2 = render h t (pass_items (sel_num true) si_names sig) (String "/" t2)).
+    { unfold s1. rewrite <- join_render. reflexivity. }
+    rewrite Es.
+    rewrite (P1 (String "/" t2)); [|right; split; [eauto|split; [reflexivity|discriminate]]].
+    simpl finish_pass.
+    assert (Et2 : t2 = render h t (pass_items sel_den si_names sig) "").
+    { unfold t2. rewrite <- join_render. rewrite app_nil_r_s. reflexivity. }
+    rewrite Et2. rewrite (sig0_repeat sig Hlen).
+    rewrite (scan_pass h t Hh Ht sel_den (-1) (or_intror eq_refl) sel_den_spec);
+      first [exact si_names_ok | apply fresh_two | assumption | (rewrite merge_length; exact Hz)
+            | (left; reflexivity) | idtac].
+    simpl. f_equal. apply merge_two.
+Qed.
